@@ -331,3 +331,133 @@ def entry_programs():
                         body += [W(Var('canary', INT)), _mark('\n')]
                         main = Func('@is_you', params, EMPTY, body)
                         yield (f'entry/{"-".join(kinds) or "none"}/arr@{arr_at}/{el}/k{k}', Program([canary], [main]), args)
+
+
+def capture_scalar_programs():
+    """the same discipline for mutable globals of every scalar type (int, byte, bool, string) used as the LEFT operand of
+    an operator, as an argument, or as an index, while the right-hand side calls a function that assigns the global"""
+    for gt in (INT, BYTE, BOOL, STRING):
+        g = Var('gv', gt)
+        first = {INT: Lit(INT, 100, keep=True), BYTE: Lit(BYTE, 2, keep=True), BOOL: Lit(BOOL, True, keep=True), STRING: Lit(STRING, b'ab', keep=True)}[gt]
+        second = {INT: Lit(INT, 3), BYTE: Lit(BYTE, 7), BOOL: Lit(BOOL, False), STRING: S('wxyz')}[gt]
+        setv = Func('setv', [], gt, [Assign(g, second), _mark('s'), Ret(second)])
+        seti = Func('seti', [], INT, [Assign(g, second), _mark('s'), Ret(Lit(INT, 5))])
+        two = Func('two', [('x', gt, False), ('y', gt, False)], EMPTY, [W(S('<')), W(Cast(Var('x', BYTE), INT) if gt == BYTE else Var('x', gt)), _mark(','),
+                                                                        W(Cast(Var('y', BYTE), INT) if gt == BYTE else Var('y', gt)), W(S('>'))])
+        reset = Assign(g, {INT: Lit(INT, 100), BYTE: Lit(BYTE, 2), BOOL: Lit(BOOL, True), STRING: S('ab')}[gt])
+        forms = {}
+        if gt in (INT, BYTE):
+            for op in ('+', '-', '*', '<', '>=', '==', '!='):
+                forms[f'left_of_{op}_same_type'] = lambda op=op: [W(Bin(op, g, Call(setv, [])))]
+                forms[f'left_of_{op}_int_call'] = lambda op=op: [W(Bin(op, g, Call(seti, [])))]
+        if gt == BOOL:
+            for op in ('==', '!='):
+                forms[f'left_of_{op}'] = lambda op=op: [W(Bin(op, g, Call(setv, [])))]
+            forms['condition_compare'] = lambda: [If(Bin('==', g, Call(setv, [])), [_mark('T')], [_mark('F')])]
+        if gt == STRING:
+            forms['length_left_of_+'] = lambda: [W(Bin('+', Len(g), Call(seti, [])))]
+            forms['index_then_call'] = lambda: [W(Bin('+', Cast(Index(g, Lit(INT, 1)), INT), Call(seti, [])))]
+        forms['first_argument'] = lambda: [ExprStmt(Call(two, [g, Call(setv, [])]))]
+        forms['literal_element'] = lambda: [Decl('lit', Arr(gt, True), ArrLit([g, Call(setv, []), g], gt, True)),
+                                            ExprStmt(Call(two, [Index(Var('lit', Arr(gt, True)), Lit(INT, 0)), Index(Var('lit', Arr(gt, True)), Lit(INT, 2))]))]
+        if gt in (INT, BYTE):
+            for el in (INT, BYTE, BOOL):
+                val = {INT: Call(seti, []), BYTE: Cast(Call(seti, []), BYTE), BOOL: Bin('>', Call(seti, []), Lit(INT, 1))}[el]
+                forms[f'index_of_{el}_store'] = lambda el=el, val=val: [
+                    Decl('a', Arr(el, False), ArrLit([{INT: Lit(INT, 10 + k), BYTE: Lit(BYTE, 97 + k), BOOL: Lit(BOOL, False)}[el] for k in range(8)], el, False)),
+                    Assign(Index(Var('a', Arr(el, False)), Bin('%', g, Lit(INT, 8, keep=True)) if gt == INT else g), val)] + \
+                    [x for k in range(8) for x in (W(Cast(Index(Var('a', Arr(el, False)), Lit(INT, k)), INT) if el == BYTE else Index(Var('a', Arr(el, False)), Lit(INT, k))), _mark(','))]
+                if el != BOOL:
+                    forms[f'index_of_{el}_opassign'] = lambda el=el: [
+                        Decl('a', Arr(el, False), ArrLit([{INT: Lit(INT, 10 + k), BYTE: Lit(BYTE, 97 + k)}[el] for k in range(8)], el, False)),
+                        OpAssign(Index(Var('a', Arr(el, False)), Bin('%', g, Lit(INT, 8, keep=True)) if gt == INT else g), '+',
+                                 Call(seti, []) if el == INT else Cast(Call(seti, []), BYTE))] + \
+                        [x for k in range(8) for x in (W(Cast(Index(Var('a', Arr(el, False)), Lit(INT, k)), INT) if el == BYTE else Index(Var('a', Arr(el, False)), Lit(INT, k))), _mark(','))]
+        for fn, mk in forms.items():
+            body = [_mark('[')] + mk() + [_mark('|'), W(Cast(g, INT) if gt == BYTE else g), _mark(']'), reset, _mark('\n')]
+            main = Func('@is_you', [('v', Arr(INT, True), False)], EMPTY, body)
+            yield f'capture-scalar/{gt}/{fn}', Program([Decl('gv', gt, first)], [main, setv, seti, two])
+
+
+def narrowing_programs():
+    """a *computed* int narrowed to byte (explicit cast, byte variable, byte parameter, byte return) and then used where the
+    un-narrowed register would be visible: index of loads/stores/compound stores on int[], byte[], bool[], dynamic array
+    length, arithmetic, comparison, widening back.  v[0] is chosen around multiples of 256."""
+    def computed(k):
+        return [Bin('+', arg(0), _i(2)), Bin('-', Bin('*', arg(0), _i(2)), arg(0)), Un('-', Un('-', arg(0))), Bin('+', arg(0), arg(1))][k]
+    asb = Func('asb', [('x', BYTE, False)], BYTE, [Ret(Var('x', BYTE))])
+    retb = Func('retb', [('x', INT, False)], BYTE, [Ret(Cast(Bin('+', Var('x', INT), _i(0)), BYTE))])
+    narrowers = {
+        'cast': lambda e: Cast(e, BYTE),
+        'byte_param': lambda e: Call(asb, [Cast(e, BYTE)]),
+        'byte_return': lambda e: Call(retb, [e]),
+    }
+    for k in range(4):
+        for nn, nar in narrowers.items():
+            for el in (INT, BYTE, BOOL):
+                t = Arr(el, False)
+                a = Var('a', t)
+                val = {INT: Lit(INT, 77), BYTE: Lit(BYTE, 122), BOOL: Lit(BOOL, True)}[el]
+                show = lambda i: (W(Cast(Index(a, i), INT)) if el == BYTE else W(Index(a, i)))    # noqa: E731
+                idx = lambda: nar(computed(k))                                                       # noqa: E731
+                body = [VLA('a', el, Lit(INT, 256))]
+                j = Var('j', INT)
+                body.append(For(Decl('j', INT, _i(0)), Bin('<', j, _i(256)), OpAssign(j, '+', _i(1)),
+                                [Assign(Index(a, j), {INT: j, BYTE: Cast(j, BYTE), BOOL: Bin('==', Bin('%', j, _i(3)), _i(0))}[el])]))
+                body += [show(idx()), _mark(' '), Assign(Index(a, idx()), val), show(idx()), _mark(' ')]
+                if el != BOOL:
+                    body += [OpAssign(Index(a, idx()), '+', Lit(el, 1)), show(idx()), _mark(' ')]
+                body += [show(Cast(idx(), INT)), _mark(' '), _mark('\n')]
+                main = Func('@is_you', [('v', Arr(INT, True), False)], EMPTY, body)
+                yield f'narrow/index/{k}/{nn}/{el}', Program([], [main, asb, retb])
+            body = [VLA('d', INT, nar(computed(k))), W(Len(Var('d', Arr(INT, False)))), _mark(' '),
+                    VLA('e', BOOL, nar(computed(k))), W(Len(Var('e', Arr(BOOL, False)))), _mark(' '),
+                    VLA('f', BYTE, Bin('+', nar(computed(k)), _i(1))), W(Len(Var('f', Arr(BYTE, False)))), _mark(' '),
+                    W(Cast(nar(computed(k)), INT)), _mark(' '), W(Bin('+', nar(computed(k)), _i(1))), _mark(' '),
+                    W(Bin('*', _i(3), nar(computed(k)))), _mark(' '),
+                    W(Bin('<', nar(computed(k)), _i(100))), _mark(' '), W(Bin('==', nar(computed(k)), Cast(computed(k), BYTE))), _mark(' '),
+                    Decl('b', BYTE, nar(computed(k))), W(Cast(Var('b', BYTE), INT)), _mark(' '),
+                    If(Bin('>=', nar(computed(k)), Lit(BYTE, 128)), [_mark('H')], [_mark('L')]),
+                    W(Index(S('0123456789abcdef'), Bin('%', nar(computed(k)), _i(16)))), _mark('\n')]
+            main = Func('@is_you', [('v', Arr(INT, True), False)], EMPTY, body)
+            yield f'narrow/value/{k}/{nn}', Program([], [main, asb, retb])
+
+
+NARROW_ARGS = [['254', '2'], ['255', '1'], ['300', '0'], ['600', '-90'], ['-1', '0'], ['510', '3']]
+
+
+def fresh_literal_programs():
+    """an array literal made of constants only, bound to a MUTABLE array: every evaluation (each call, each loop iteration,
+    each call site) yields a fresh array with the written values, whatever was stored into an earlier one"""
+    for el in (INT, BYTE, BOOL, STRING):
+        t = Arr(el, False)
+        lits = {INT: [1, 2, 3], BYTE: [65, 66, 67], BOOL: [True, False, True], STRING: [b'a', b'bc', b'd']}[el]
+        mk = lambda: ArrLit([Lit(el, v) for v in lits], el, False)                           # noqa: E731
+        newv = {INT: lambda n: Bin('+', n, Lit(INT, 10)), BYTE: lambda n: Cast(Bin('+', n, Lit(INT, 80)), BYTE), BOOL: lambda n: Bin('>', n, Lit(INT, 99)),
+                STRING: lambda n: S('CHANGED')}[el]
+        pr = lambda e: (W(Cast(e, INT)) if el == BYTE else W(e))                             # noqa: E731
+        n = Var('n', INT)
+        a = Var('a', t)
+        dump = lambda arr: [x for k in range(3) for x in (pr(Index(arr, Lit(INT, k))), _mark(','))]     # noqa: E731
+        work = Func('work', [('n', INT, False)], EMPTY, [Decl('a', t, mk())] + dump(a) + [Assign(Index(a, Lit(INT, 0)), newv(n)), Assign(Index(a, Lit(INT, 2)), newv(n))] + dump(a) + [_mark(';')])
+        p = Var('p', t)
+        take = Func('take', [('p', t, False), ('n', INT, False)], EMPTY, dump(p) + [Assign(Index(p, Lit(INT, 1)), newv(n))] + dump(p) + [_mark(';')])
+        i = Var('i', INT)
+        b = Var('b', t)
+        loop = For(Decl('i', INT, _i(0)), Bin('<', i, _i(3)), OpAssign(i, '+', _i(1)),
+                   [Decl('b', t, mk())] + dump(b) + [Assign(Index(b, Bin('%', i, _i(3))), newv(i))] + dump(b) + [_mark('/')])
+        main = Func('@is_you', [('v', Arr(INT, True), False)], EMPTY,
+                    [ExprStmt(Call(work, [arg(0)])), ExprStmt(Call(work, [arg(1)])), _mark('\n'), loop, _mark('\n'),
+                     ExprStmt(Call(take, [mk(), arg(0)])), ExprStmt(Call(take, [mk(), arg(1)])), _mark('\n'),
+                     ExprStmt(Call(work, [arg(0)])), _mark('\n')])
+        yield f'fresh-literal/{el}', Program([], [main, work, take])
+        # the same literal text also as a const global and a const local: these may be shared, the mutable ones may not
+        cg = Decl('cg', Arr(el, True), ArrLit([Lit(el, v, keep=True) for v in lits], el, True))
+        main2 = Func('@is_you', [('v', Arr(INT, True), False)], EMPTY,
+                     [Decl('m', t, mk()), Assign(Index(Var('m', t), Lit(INT, 0)), newv(arg(0)))] + dump(Var('m', t)) + dump(Var('cg', Arr(el, True))) +
+                     [Decl('c', Arr(el, True), ArrLit([Lit(el, v) for v in lits], el, True))] + dump(Var('c', Arr(el, True))) +
+                     [Decl('m2', t, mk())] + dump(Var('m2', t)) + [_mark('\n')])
+        yield f'fresh-literal-next-to-const/{el}', Program([cg], [main2])
+
+
+FRESH_ARGS = [['5', '7'], ['200', '-1']]
